@@ -16,3 +16,7 @@ package tss
 //@ func VerifyComplaint
 //@ trusted
 //@ ensures err == nil <==> validComplaint(oneTimePubI, oneTimePubJ, keySym, complaintSignature, encSecretShare, midI, commits)
+
+// keccak256 of the concatenation of its arguments: abstract (uninterpreted hash)
+//@ func Hash
+//@ abstract
